@@ -1,5 +1,5 @@
 (* C02 - signals in the span of the basis are reconstructed exactly.  Model: Recon/Predict.v. *)
-From Coq Require Import List Arith QArith Qcanon.
+From Coq Require Import List Arith Lia QArith Qcanon Ring.
 Import ListNotations.
 From PS Require Import LA.Sums LA.Gram LA.GramProofs LA.Dim Recon.Predict Recon.PredictProofs.
 Close Scope Qc_scope.
@@ -41,3 +41,32 @@ Example C02_example :
   let B := of_rows [[q 3 1; q (-1) 1]; [q 0 1; q 0 1]; [q 1 1; q 4 1]; [q 6 1; q (-2) 1]; [q 2 1; q 2 1]] in
   rk_of 2 5 B 2 = [3; 2] /\ firstn 2 (gram_greedy 5 2 (gram 2 B)) = [3; 2].
 Proof. split; vm_compute; reflexivity. Qed.
+
+(* non-vacuity: the example matrix has trivial kernel (rows 0 and 2 already force d = 0), so the hypotheses of
+   C02_default_qr_selection_has_full_rank are met with the model's own ranking *)
+Example C02_hypotheses_met :
+  let B := of_rows [[q 3 1; q (-1) 1]; [q 0 1; q 0 1]; [q 1 1; q 4 1]; [q 6 1; q (-2) 1]; [q 2 1; q 2 1]] in
+  kernel_trivial 5 2 B /\ kernel_trivial 3 2 (fun i => B (nth i [3; 2; 0] 0)).
+Proof.
+  cbv zeta. set (B := of_rows _).
+  assert (K : kernel_trivial 5 2 B).
+  { intros d H. pose proof (H 0 ltac:(lia)) as E0. pose proof (H 2 ltac:(lia)) as E2.
+    unfold matvec, dot in E0, E2. cbn [sum] in E0, E2.
+    change (B 0 0) with (q 3 1) in E0. change (B 0 1) with (q (-1) 1) in E0.
+    change (B 2 0) with (q 1 1) in E2. change (B 2 1) with (q 4 1) in E2.
+    set (d0 := d 0) in *. set (d1 := d 1) in *.
+    assert (D0 : (q 13 1 * d0 = 0)%Qc).
+    { transitivity ((q 4 1 * (0 + q 3 1 * d0 + q (-1) 1 * d1) + (0 + q 1 1 * d0 + q 4 1 * d1))%Qc).
+      - replace (q 13 1) with (q 4 1 * q 3 1 + q 1 1)%Qc by (apply Qc_is_canon; vm_compute; reflexivity).
+        replace (q (-1) 1) with (- (1))%Qc by (apply Qc_is_canon; vm_compute; reflexivity).
+        replace (q 1 1) with 1%Qc by (apply Qc_is_canon; vm_compute; reflexivity). ring.
+      - rewrite E0, E2. ring. }
+    assert (Z0 : d0 = 0%Qc).
+    { destruct (Qcmult_integral _ _ D0) as [X|X]; [discriminate X|exact X]. }
+    assert (Z1 : d1 = 0%Qc).
+    { rewrite Z0 in E0. transitivity (- (0 + q 3 1 * 0 + q (-1) 1 * d1))%Qc; [|rewrite E0; ring].
+      replace (q (-1) 1) with (- (1))%Qc by (apply Qc_is_canon; vm_compute; reflexivity). ring. }
+    intros [|[|j]] Hj; [exact Z0|exact Z1|lia]. }
+  split; [exact K|].
+  apply (C02_default_qr_selection_has_full_rank 2 5 B [3; 2; 0] ltac:(lia) K). vm_compute. reflexivity.
+Qed.
